@@ -4,7 +4,7 @@
    dispatch-side transformers are those of M1 (ParallelFrame2), so M1's invariant lemmas are reused. *)
 From Coq Require Import List Bool Arith Lia PeanoNat.
 Require Import JV.Model.ParallelCore JV.Model.ParallelSync JV.Proofs.ParallelLemmas JV.Proofs.ParallelInv1
-               JV.Proofs.ParallelFrame2.
+               JV.Proofs.ParallelFrame2 JV.Proofs.ParallelFrame3.
 Import ListNotations.
 
 Definition wf_sev (e : sev) : Prop :=
@@ -22,7 +22,29 @@ Inductive sreach : sst -> Prop :=
 Lemma wf_list_cfg cf : wf_cfg cf -> wf_cfg (list_cfg cf).
 Proof. intros H. exact H. Qed.
 
-Section SyncPreservation.
+Definition no_return (o : list sobs) : Prop := forall l, ~ In (SReturned l) o.
+
+Lemma fst_lift r : fst (lift r) = fst r.
+Proof. reflexivity. Qed.
+
+Lemma step_raw_dispatch_first s b : phase s = StartFirst ->
+  fst (step_raw true s (EDispatch b)) =
+  ParallelFrame2.start_first_next (fst (dispatch_one_batch s b false)) (snd (dispatch_one_batch s b false)).
+Proof.
+  intros Hph. cbn [step_raw]. rewrite Hph. destruct (dispatch_one_batch s b false) as [s1 r]. cbn [fst snd].
+  unfold ParallelFrame2.start_first_next. destruct (aborting _); reflexivity.
+Qed.
+
+Lemma step_raw_dispatch_loop s b : phase s = StartLoop ->
+  fst (step_raw true s (EDispatch b)) =
+  ParallelFrame2.start_loop_next (fst (dispatch_one_batch s b false)) (snd (dispatch_one_batch s b false)).
+Proof.
+  intros Hph. cbn [step_raw]. rewrite Hph. destruct (dispatch_one_batch s b false) as [s1 r]. cbn [fst snd].
+  unfold ParallelFrame2.start_loop_next. destruct r; [destruct (aborting s1)|]; reflexivity.
+Qed.
+
+(* ---------------- principle A: the locked section of the callback (_dispatch_new) is one step -------------- *)
+Section SyncPreservation3.
 Variable P : st -> option nat -> Prop.
 Definition PS (s : sst) : Prop := P (base s) (blk s).
 
@@ -30,22 +52,22 @@ Hypothesis S_init : P init None.
 Hypothesis S_call : forall s k cf n f, P s k -> wf_cfg cf -> running s = false ->
   (phase s = Idle \/ phase s = Finished) -> P (do_call s (list_cfg cf) n f) None.
 Hypothesis S_start_first : forall s b s1 r, P s None -> 1 <= n_jobs (c s) -> 1 <= b -> phase s = StartFirst ->
-  dispatch_shape s b false s1 r -> P (start_first_next s1 r) None.
+  dispatch_shape s b false s1 r -> P (ParallelFrame2.start_first_next s1 r) None.
 Hypothesis S_start_loop : forall s b s1 r, P s None -> 1 <= n_jobs (c s) -> 1 <= b -> phase s = StartLoop ->
-  dispatch_shape s b false s1 r -> P (start_loop_next s1 r) None.
+  dispatch_shape s b false s1 r -> P (ParallelFrame2.start_loop_next s1 r) None.
 (* the completion callback *)
 Hypothesis S_cb_ghost : forall s k t tk, P s k -> nth_error (trk s) t = Some tk -> In t (inflight s) ->
   tk_cid tk = cid s -> aborting s = false -> P (cb_start s t None) k.
 Hypothesis S_cb_move : forall s k t tk, P s k -> nth_error (trk s) t = Some tk -> In t (inflight s) ->
   (tk_cid tk <> cid s \/ aborting s = true) -> P (move_mid s t) k.
-Hypothesis S_dispatch : forall s k b s' r, P s k -> 1 <= n_jobs (c s) -> 1 <= b -> orig s = true ->
-  closed s <> [] -> dispatch_shape s b true s' r -> P s' k.
-Hypothesis S_cb_close : forall s k t tk, P s k -> nth_error (trk s) t = Some tk -> In t (cbmid s) ->
-  tk_cid tk = cid s -> P (mark_closed (add_comp s (length (tk_tasks tk)) (remove_id t (cbmid s))) t) k.
+Hypothesis S_cb_finish_noorig : forall s k t tk, P s k -> nth_error (trk s) t = Some tk -> In t (cbmid s) ->
+  tk_cid tk = cid s -> orig s = false -> P (closed_state s t tk) k.
+Hypothesis S_cb_finish_orig : forall s k t tk b s2 r, P s k -> 1 <= n_jobs (c s) -> 1 <= b ->
+  nth_error (trk s) t = Some tk -> In t (cbmid s) -> tk_cid tk = cid s -> orig s = true ->
+  dispatch_shape (closed_state s t tk) b true s2 r ->
+  P (if r then s2 else set_flags s2 false false (phase s2)) k.
 Hypothesis S_cb_stale : forall s k t tk, P s k -> nth_error (trk s) t = Some tk -> In t (cbmid s) ->
   tk_cid tk <> cid s -> P (add_comp s 0 (remove_id t (cbmid s))) k.
-Hypothesis S_exhaust : forall s k, P s k -> orig s = true -> closed s <> [] ->
-  (aborting s = true \/ (ready s = [] /\ N s <= taken s)) -> P (set_flags s false false (phase s)) k.
 (* the caller's retrieval loop *)
 Hypothesis S_raise_fast : forall s e, P s None -> phase s = Retrieving -> aborting s = true ->
   first_failed s = Some e -> P (finalize s Finished true true) None.
@@ -86,9 +108,6 @@ Proof.
   - pose proof (PS_drain b H) as Hd. unfold drain_s in Hd |- *. rewrite Hph in Hd |- *. exact Hd.
 Qed.
 
-Lemma fst_lift r : fst (lift r) = fst r.
-Proof. reflexivity. Qed.
-
 Lemma P_cb_sync s k t b : P s k -> 1 <= n_jobs (c s) -> 1 <= b -> P (cb_sync s t b) k.
 Proof.
   intros H Hnj Hb. unfold cb_sync.
@@ -104,27 +123,10 @@ Proof.
     - eapply S_cb_move; eauto. }
   assert (Hnj' : 1 <= n_jobs (c (cb_enter s t))).
   { eapply S_wf. exact He. }
-  exact (ParallelFrame2.P_cb_finish (fun x => P x k)
-           (fun x bb x' r Hx => S_dispatch x k bb x' r Hx)
-           (fun x tt kk Hx => S_cb_close x k tt kk Hx)
-           (fun x tt kk Hx => S_cb_stale x k tt kk Hx)
-           (fun x Hx => S_exhaust x k Hx) (cb_enter s t) t b He Hnj' Hb).
-Qed.
-
-Lemma step_raw_dispatch_first s b : phase s = StartFirst ->
-  fst (step_raw true s (EDispatch b)) =
-  start_first_next (fst (dispatch_one_batch s b false)) (snd (dispatch_one_batch s b false)).
-Proof.
-  intros Hph. cbn [step_raw]. rewrite Hph. destruct (dispatch_one_batch s b false) as [s1 r]. cbn [fst snd].
-  unfold start_first_next. destruct (aborting _); reflexivity.
-Qed.
-
-Lemma step_raw_dispatch_loop s b : phase s = StartLoop ->
-  fst (step_raw true s (EDispatch b)) =
-  start_loop_next (fst (dispatch_one_batch s b false)) (snd (dispatch_one_batch s b false)).
-Proof.
-  intros Hph. cbn [step_raw]. rewrite Hph. destruct (dispatch_one_batch s b false) as [s1 r]. cbn [fst snd].
-  unfold start_loop_next. destruct r; [destruct (aborting s1)|]; reflexivity.
+  exact (ParallelFrame3.P_cb_finish (fun x => P x k)
+           (fun x tt kk Hx => S_cb_finish_noorig x k tt kk Hx)
+           (fun x tt kk bb x2 r Hx => S_cb_finish_orig x k tt kk bb x2 r Hx)
+           (fun x tt kk Hx => S_cb_stale x k tt kk Hx) (cb_enter s t) t b He Hnj' Hb).
 Qed.
 
 Lemma PS_step s e : PS s -> wf_sev e -> PS (fst (sstep s e)).
@@ -148,9 +150,7 @@ Proof.
 Qed.
 
 (* a step either is the caller's retrieval loop run from a state that satisfies P, or returns nothing *)
-Definition no_return (o : list sobs) : Prop := forall l, ~ In (SReturned l) o.
-
-Lemma PS_step_shape s e : PS s -> wf_sev e ->
+Lemma PS_step_shape3 s e : PS s -> wf_sev e ->
   (exists x, P x None /\ sstep s e = lift (adv_s x)) \/ no_return (snd (sstep s e)).
 Proof.
   intros H Hwf. unfold PS in H. destruct s as [b k]. cbn [base blk] in H.
@@ -171,8 +171,86 @@ Proof.
     left. eexists. split; [apply S_result_ok; exact H | reflexivity].
 Qed.
 
-Theorem PS_reach : forall s, sreach s -> PS s.
+Theorem PS_reach3 : forall s, sreach s -> PS s.
 Proof.
   induction 1 as [|s e Hr IH Hwf]; [exact S_init|]. apply PS_step; assumption.
+Qed.
+End SyncPreservation3.
+
+(* ---------------- principle B: the same with the callback's section split into its primitive
+   transformers (count + close, dispatch_next, exhaustion flags) -- enough for invariants that hold in
+   between ---------------- *)
+Section SyncPreservation.
+Variable P : st -> option nat -> Prop.
+
+Hypothesis S_init : P init None.
+Hypothesis S_call : forall s k cf n f, P s k -> wf_cfg cf -> running s = false ->
+  (phase s = Idle \/ phase s = Finished) -> P (do_call s (list_cfg cf) n f) None.
+Hypothesis S_start_first : forall s b s1 r, P s None -> 1 <= n_jobs (c s) -> 1 <= b -> phase s = StartFirst ->
+  dispatch_shape s b false s1 r -> P (ParallelFrame2.start_first_next s1 r) None.
+Hypothesis S_start_loop : forall s b s1 r, P s None -> 1 <= n_jobs (c s) -> 1 <= b -> phase s = StartLoop ->
+  dispatch_shape s b false s1 r -> P (ParallelFrame2.start_loop_next s1 r) None.
+Hypothesis S_cb_ghost : forall s k t tk, P s k -> nth_error (trk s) t = Some tk -> In t (inflight s) ->
+  tk_cid tk = cid s -> aborting s = false -> P (cb_start s t None) k.
+Hypothesis S_cb_move : forall s k t tk, P s k -> nth_error (trk s) t = Some tk -> In t (inflight s) ->
+  (tk_cid tk <> cid s \/ aborting s = true) -> P (move_mid s t) k.
+Hypothesis S_dispatch : forall s k b s' r, P s k -> 1 <= n_jobs (c s) -> 1 <= b -> orig s = true ->
+  closed s <> [] -> dispatch_shape s b true s' r -> P s' k.
+Hypothesis S_cb_close : forall s k t tk, P s k -> nth_error (trk s) t = Some tk -> In t (cbmid s) ->
+  tk_cid tk = cid s -> P (mark_closed (add_comp s (length (tk_tasks tk)) (remove_id t (cbmid s))) t) k.
+Hypothesis S_cb_stale : forall s k t tk, P s k -> nth_error (trk s) t = Some tk -> In t (cbmid s) ->
+  tk_cid tk <> cid s -> P (add_comp s 0 (remove_id t (cbmid s))) k.
+Hypothesis S_exhaust : forall s k, P s k -> orig s = true -> closed s <> [] ->
+  (aborting s = true \/ (ready s = [] /\ N s <= taken s)) -> P (set_flags s false false (phase s)) k.
+Hypothesis S_raise_fast : forall s e, P s None -> phase s = Retrieving -> aborting s = true ->
+  first_failed s = Some e -> P (finalize s Finished true true) None.
+Hypothesis S_loop_exit : forall s, P s None -> phase s = Retrieving ->
+  (aborting s = true /\ first_failed s = None \/
+   aborting s = false /\ jobs s = [] /\ iterating s = false /\ n_disp s <= n_comp s) ->
+  P (loop_exit s) None.
+Hypothesis S_pop : forall s j js, P s None -> phase s = Retrieving -> aborting s = false -> jobs s = j :: js ->
+  P (set_out s js (jset s) [] false Retrieving) (Some j).
+Hypothesis S_drain_end : forall s, P s None -> phase s = Draining [] ->
+  P (set_out s (jobs s) (jset s) [] false Finished) None.
+Hypothesis S_drain_pop : forall s j js, P s None -> phase s = Draining (j :: js) ->
+  P (set_out s (jobs s) (jset s) [] false (Draining js)) (Some j).
+Hypothesis S_result_ok : forall s j, P s (Some j) -> P (deliver_list s (tasks_of s j)) None.
+Hypothesis S_result_fail : forall s j, P s (Some j) -> P (finalize s Finished true true) None.
+Hypothesis S_wf : forall s k, P s k -> 1 <= n_jobs (c s).
+
+Lemma comb_noorig : forall s k t tk, P s k -> nth_error (trk s) t = Some tk -> In t (cbmid s) ->
+  tk_cid tk = cid s -> orig s = false -> P (closed_state s t tk) k.
+Proof. intros s k t tk H Hk Hin Hc _. apply S_cb_close; assumption. Qed.
+
+Lemma comb_orig : forall s k t tk b s2 r, P s k -> 1 <= n_jobs (c s) -> 1 <= b ->
+  nth_error (trk s) t = Some tk -> In t (cbmid s) -> tk_cid tk = cid s -> orig s = true ->
+  dispatch_shape (closed_state s t tk) b true s2 r ->
+  P (if r then s2 else set_flags s2 false false (phase s2)) k.
+Proof.
+  intros s k t tk b s2 r H Hnj Hb Hk Hin Hc Ho Hsh.
+  pose proof (S_cb_close s k t tk H Hk Hin Hc) as H1. fold (closed_state s t tk) in H1.
+  assert (Hcl : closed (closed_state s t tk) <> []) by (cbn; destruct (closed s); discriminate).
+  assert (Ho1 : orig (closed_state s t tk) = true) by exact Ho.
+  assert (Hnj1 : 1 <= n_jobs (c (closed_state s t tk))) by exact Hnj.
+  pose proof (S_dispatch _ k b s2 r H1 Hnj1 Hb Ho1 Hcl Hsh) as H2.
+  destruct r; [exact H2|].
+  inversion Hsh; subst.
+  - apply S_exhaust; [exact H2 | exact Ho1 | exact Hcl | left; assumption].
+  - apply S_exhaust; [exact H2 | exact Ho1 | exact Hcl |]. right. split; [assumption|].
+    match goal with Hx : _ \/ _ \/ _ |- _ => destruct Hx as [Hy | [[Hy _] | Hy]];
+      [exact Hy | discriminate Hy | exfalso; change (n_jobs (c (closed_state s t tk))) with (n_jobs (c s)) in Hy; nia] end.
+Qed.
+
+Theorem PS_reach : forall s, sreach s -> PS P s.
+Proof.
+  exact (PS_reach3 P S_init S_call S_start_first S_start_loop S_cb_ghost S_cb_move comb_noorig comb_orig S_cb_stale
+           S_raise_fast S_loop_exit S_pop S_drain_end S_drain_pop S_result_ok S_result_fail S_wf).
+Qed.
+
+Lemma PS_step_shape s e : PS P s -> wf_sev e ->
+  (exists x, P x None /\ sstep s e = lift (adv_s x)) \/ no_return (snd (sstep s e)).
+Proof.
+  exact (PS_step_shape3 P S_start_first S_start_loop S_cb_ghost S_cb_move comb_noorig comb_orig S_cb_stale
+           S_result_ok S_wf s e).
 Qed.
 End SyncPreservation.
